@@ -1,128 +1,8 @@
 // Instantiation witness: server configurations the properties quantify over but the pinned tests
 // rarely or never instantiate. Parsed only; drive<>() forces instantiation of the request handlers.
-#include "wit_common.hpp"
-#include <bluetoe/descriptor.hpp>
-#include <bluetoe/server_name.hpp>
-#include <bluetoe/appearance.hpp>
-#include <bluetoe/adv_service_list.hpp>
-#include <bluetoe/peripheral_connection_interval_range.hpp>
-#include <bluetoe/mixin.hpp>
+#include "inst_att_decls.hpp"
 
 namespace wit {
-
-std::uint8_t  v8a, v8b, v8c, v8d, v8e, v8f, v8g, v8h, v8i, v8j;
-std::uint32_t v32;
-std::uint8_t  blob[ 30 ];
-const std::uint8_t cblob[ 4 ] = { 1, 2, 3, 4 };
-extern const char name_str[] ;
-const char name_str[] = "witness";
-extern const std::uint8_t fixed_blob[] ;
-const std::uint8_t fixed_blob[] = { 1, 2, 3 };
-
-std::uint8_t read_h( std::size_t, std::uint8_t*, std::size_t& ) { return 0; }
-std::uint8_t read_blob_h( std::size_t, std::size_t, std::uint8_t*, std::size_t& ) { return 0; }
-std::uint8_t write_h( std::size_t, const std::uint8_t* ) { return 0; }
-std::uint8_t write_blob_h( std::size_t, std::size_t, const std::uint8_t* ) { return 0; }
-std::uint8_t write_u8( std::uint8_t ) { return 0; }
-
-struct mix {
-    std::uint8_t rd( std::size_t, std::uint8_t*, std::size_t& ) { return 0; }
-    std::uint8_t wr( std::size_t, const std::uint8_t* ) { return 0; }
-};
-
-// 1. plain, one service, all value kinds x permission options
-using srv_values = b::server<
-    svc16< 0x1000,
-        chr16< 0x1001, b::bind_characteristic_value< std::uint8_t, &v8a > >,
-        chr16< 0x1002, b::bind_characteristic_value< std::uint8_t, &v8b >, b::no_read_access >,
-        chr16< 0x1003, b::bind_characteristic_value< std::uint8_t, &v8c >, b::no_write_access >,
-        chr16< 0x1004, b::bind_characteristic_value< const std::uint8_t[ 4 ], &cblob > >,
-        chr16< 0x1005, b::bind_characteristic_value< std::uint8_t[ 30 ], &blob >, b::write_without_response >,
-        chr16< 0x1006, b::bind_characteristic_value< std::uint32_t, &v32 >, b::only_write_without_response >,
-        chr16< 0x1007, b::fixed_uint8_value< 0x42 > >,
-        chr16< 0x1008, b::fixed_uint16_value< 0x4242 >, b::no_read_access >,
-        chr16< 0x1009, b::cstring_value< name_str > >,
-        chr16< 0x100a, b::fixed_blob_value< fixed_blob, 3 > >,
-        chr16< 0x100b, b::free_read_handler< &read_h > >,
-        chr16< 0x100c, b::free_read_blob_handler< &read_blob_h >, b::free_write_blob_handler< &write_blob_h > >,
-        chr16< 0x100d, b::free_raw_write_handler< &write_h > >,
-        chr16< 0x100e, b::free_write_handler< std::uint8_t, &write_u8 >, b::no_read_access >,
-        chr16< 0x100f, b::free_read_handler< &read_h >, b::free_raw_write_handler< &write_h >, b::no_read_access, b::notify >
-    >,
-    b::no_gap_service_for_gatt_servers
->;
-
-// 2. primary + secondary + include, fixed handles with gaps
-using svc_secondary = b::service< b::service_uuid16< 0x2222 >, b::is_secondary_service,
-    chr16< 0x2223, b::bind_characteristic_value< std::uint8_t, &v8d > > >;
-
-using srv_layout = b::server<
-    svc16< 0x2000,
-        b::include_service< b::service_uuid16< 0x2222 > >,
-        chr16< 0x2001, b::bind_characteristic_value< std::uint8_t, &v8a >, b::notify >,
-        chr16< 0x2002, b::bind_characteristic_value< std::uint8_t, &v8b >, b::indicate, b::attribute_handles< 0x20, 0x22, 0x30 > >
-    >,
-    svc_secondary,
-    svc16< 0x2100, b::attribute_handle< 0x100 >,
-        chr16< 0x2101, b::bind_characteristic_value< std::uint8_t, &v8c >, b::notify, b::indicate >,
-        chr16< 0x2102, b::bind_characteristic_value< std::uint8_t, &v8e >, b::attribute_handle< 0x200 > >
-    >,
-    b::no_gap_service_for_gatt_servers
->;
-
-// 3. CCCD counts 1 / 5 / 9 with priorities, write queue, larger MTU, encryption options
-using srv_one_cccd = b::server<
-    svc16< 0x3000, chr16< 0x3001, b::bind_characteristic_value< std::uint8_t, &v8a >, b::notify, b::indicate > >,
-    b::no_gap_service_for_gatt_servers, b::max_mtu_size< 65 >
->;
-
-using srv_prio = b::server<
-    b::higher_outgoing_priority< b::service_uuid16< 0x3100 > >,
-    svc16< 0x3000,
-        chr16< 0x3001, b::bind_characteristic_value< std::uint8_t, &v8a >, b::notify >,
-        chr16< 0x3002, b::bind_characteristic_value< std::uint8_t, &v8b >, b::indicate >,
-        chr16< 0x3003, b::bind_characteristic_value< std::uint8_t, &v8c >, b::notify >,
-        chr16< 0x3004, b::bind_characteristic_value< std::uint8_t, &v8d >, b::notify >,
-        b::higher_outgoing_priority< b::characteristic_uuid16< 0x3003 > >
-    >,
-    svc16< 0x3100,
-        chr16< 0x3101, b::bind_characteristic_value< std::uint8_t, &v8e >, b::notify, b::indicate >,
-        b::requires_encryption
-    >,
-    b::shared_write_queue< 64 >,
-    b::max_mtu_size< 100 >,
-    b::no_gap_service_for_gatt_servers
->;
-
-using srv_nine = b::server<
-    svc16< 0x3200,
-        chr16< 0x3201, b::bind_characteristic_value< std::uint8_t, &v8a >, b::notify >,
-        chr16< 0x3202, b::bind_characteristic_value< std::uint8_t, &v8b >, b::notify >,
-        chr16< 0x3203, b::bind_characteristic_value< std::uint8_t, &v8c >, b::notify >,
-        chr16< 0x3204, b::bind_characteristic_value< std::uint8_t, &v8d >, b::notify >,
-        chr16< 0x3205, b::bind_characteristic_value< std::uint8_t, &v8e >, b::indicate >,
-        chr16< 0x3206, b::bind_characteristic_value< std::uint8_t, &v8f >, b::notify >,
-        chr16< 0x3207, b::bind_characteristic_value< std::uint8_t, &v8g >, b::notify >,
-        chr16< 0x3208, b::bind_characteristic_value< std::uint8_t, &v8h >, b::notify >,
-        chr16< 0x3209, b::bind_characteristic_value< std::uint8_t, &v8i >, b::notify, b::may_require_encryption >
-    >,
-    b::requires_encryption,
-    b::server_name< name_str >,
-    b::appearance::keyboard,
-    b::list_of_16_bit_service_uuids< b::service_uuid16< 0x3200 > >
->;
-
-// 4. gap service, 128 bit uuids, mixin handlers
-using srv_mixin = b::server<
-    b::mixin< mix >,
-    b::service<
-        b::service_uuid< 0x8C8B4094, 0x0DE2, 0x499F, 0xA28A, 0x4EED5BC73CA9 >,
-        b::characteristic<
-            b::characteristic_uuid< 0x8C8B4094, 0x0DE2, 0x499F, 0xA28A, 0x4EED5BC73CAA >,
-            b::mixin_read_handler< mix, &mix::rd >, b::mixin_write_handler< mix, &mix::wr >, b::notify
-        >
-    >
->;
 
 void instantiate()
 {
@@ -132,6 +12,7 @@ void instantiate()
     drive< srv_prio >();
     drive< srv_nine >();
     drive< srv_mixin >();
+    drive< srv_includes >();
 
     static srv_prio s;
     s.notify( v8a );
